@@ -5,6 +5,7 @@ import (
 	"strings"
 	"sync/atomic"
 
+	"github.com/antonmedv/expr"
 	"github.com/antonmedv/expr/file"
 	"github.com/antonmedv/expr/parser/lexer"
 
@@ -28,12 +29,41 @@ type c13Layout struct {
 	name     string
 	multi    bool
 	prefix   bool
-	sameLine bool // the non-ASCII prefix sits on the same line as the expression
-	chains   bool // left operands that are binary operators of at least the same precedence are not parenthesised
+	sameLine bool   // the non-ASCII prefix sits on the same line as the expression
+	chains   bool   // left operands that are binary operators of at least the same precedence are not parenthesised
+	ws       string // "crlf": line breaks are CR LF; "cr"/"tab"/"nbsp": every blank between tokens is that character
 }
 
-var c13Layouts = []c13Layout{{"line", false, false, false, false}, {"multiline", true, false, false, false}, {"unicode-prefix", false, true, false, false}, {"unicode-prefix-multiline", true, true, false, false},
-	{"unicode-prefix-same-line", false, true, true, false}, {"chains", false, false, false, true}, {"chains-multiline", true, false, false, true}}
+var c13Layouts = []c13Layout{{"line", false, false, false, false, ""}, {"multiline", true, false, false, false, ""}, {"unicode-prefix", false, true, false, false, ""}, {"unicode-prefix-multiline", true, true, false, false, ""},
+	{"unicode-prefix-same-line", false, true, true, false, ""}, {"chains", false, false, false, true, ""}, {"chains-multiline", true, false, false, true, ""},
+	{"crlf", true, false, false, false, "crlf"}, {"cr-blanks", false, false, false, false, "cr"}, {"tab-blanks", false, false, false, false, "tab"}, {"nbsp-blanks-multiline", true, false, false, false, "nbsp"}}
+
+// c13Blanks replaces the blanks between tokens (not inside string literals); every replacement is one rune
+// that does not end a line, so no expected location moves.
+func c13Blanks(text, ws string) string {
+	if ws == "crlf" {
+		return strings.Replace(text, "\n", "\r\n", -1)
+	}
+	rep := map[string]rune{"cr": '\r', "tab": '\t', "nbsp": '\u00a0'}[ws]
+	out := []rune(text)
+	var quote rune
+	for i := 0; i < len(out); i++ {
+		c := out[i]
+		switch {
+		case quote != 0:
+			if c == '\\' {
+				i++
+			} else if c == quote {
+				quote = 0
+			}
+		case c == '"' || c == '\'':
+			quote = c
+		case c == ' ':
+			out[i] = rep
+		}
+	}
+	return string(out)
+}
 
 const c13PrefixSameLine = "[\"zürich😀\", "
 
@@ -76,6 +106,9 @@ func c13Text(e *gen.Expr, l c13Layout) (string, map[string][2]int) {
 			}
 		}
 		return c13PrefixSameLine + text + c13Suffix, out
+	}
+	if l.ws != "" {
+		return c13Blanks(text, l.ws), anchors
 	}
 	if !l.prefix {
 		return text, anchors
@@ -391,6 +424,41 @@ func c13(r *report.Run) {
 		}
 		return runs, outs
 	})
+	// (E) a failing overloaded operator: the failure belongs to the operator occurrence that was rewritten into the call
+	for i, src := range []string{"I - 0", "(I - 1) - 0", "Id(I - 0)", "[1, I - 0]", "map(A, {# - 0})", "B ? I - 0 : 1", `"é😀" + S == "x" or I - 0 > 1`, "I - 1 +\n  (J - 0)",
+		"[\"zürich😀\",\n I - 1,\n\tJ - 0]", "{a: I - 0}", "A[I - 0]", "not (I - 0 > 1)", "I - 0 in A", "len(A[I - 0:])", "I - 1 - 0", "-(I - 0)", "Pack(I - 0)", "O.Plus(I - 0)", "count(A, {# - 0 > 1})"} {
+		rs := []rune(src)
+		at := strings.Index(src, "- 0")
+		pos := len([]rune(src[:at]))
+		line, col := 1, 0
+		for _, c := range rs[:pos] {
+			if c == '\n' {
+				line, col = line+1, 0
+			} else {
+				col++
+			}
+		}
+		for _, opt := range []bool{true, false} {
+			p, err := expr.Compile(src, expr.Env(henv.Env{}), expr.Operator("-", "OpSubBoom"), expr.Optimize(opt))
+			if err != nil {
+				continue
+			}
+			_, err = lib.Run(p, *henv.MakeFull(henv.Val{}))
+			atomic.AddInt64(&runtimeFaults, 1)
+			fe := fileErr(err)
+			if err == nil || fe == nil {
+				continue
+			}
+			if s := c13Sanity(src, fe); s != "" {
+				r.Report(report.Violation{Sub: "runtime/overload", Kind: "location-outside-source", Witness: "failing overloaded operator", Order: int64(1)<<40 + int64(i), Detail: map[string]interface{}{"source": src, "what": s}})
+				continue
+			}
+			if fe.Line != line || fe.Column != col {
+				r.Report(report.Violation{Sub: "runtime/overload", Kind: "wrong-position", Witness: "failing overloaded operator", Order: int64(1)<<40 + int64(i),
+					Detail: map[string]interface{}{"source": src, "optimize": opt, "expected": fmt.Sprintf("%d:%d", line, col), "reported": fmt.Sprintf("%d:%d", fe.Line, fe.Column), "message": fe.Message}})
+			}
+		}
+	}
 	r.Set("runtime_faults_checked", runtimeFaults)
 	r.Set("compile_faults_injected", compileFaults)
 	r.Set("syntax_faults_injected", syntaxFaults)
